@@ -288,6 +288,13 @@ class CancelScope(AbstractCancelScope):
                     for exc in _utils.iterate_exceptions(exc_val)
                     if isinstance(exc, asyncio.CancelledError)
                 )
+            else:
+                # The cancellation never surfaced in the body (e.g. it was shielded until the end):
+                # take back our own task.cancel() calls, otherwise the task keeps a non-zero cancelling() count.
+                while self.__host_task_cancel_calls:
+                    self.__host_task_cancel_calls -= 1
+                    if host_task.uncancel() <= self.__host_task_cancelling:
+                        break
 
             delayed_task_cancel: _DelayedCancel | None = self.__delayed_task_cancel_dict.get(host_task, None)
             if delayed_task_cancel is not None and delayed_task_cancel.message == self.__cancellation_id():
